@@ -363,8 +363,8 @@ pub enum SizeMode {
     WithLarge,
     /// only 3000..8000 (memo > 256)
     Large,
-    /// Mixed plus 20000..50000 (C09)
-    WithHuge,
+    /// Mixed plus a few cases in lo..hi (e.g. 20000..50000)
+    WithHuge(usize, usize),
     /// tiny ranges only (enumeration-style coverage of the collapse tail)
     Tiny,
 }
@@ -437,13 +437,17 @@ pub fn opcode_range(size: SizeMode) -> BoxedStrategy<(usize, usize)> {
     let default = Just((60usize, 300usize));
     let medium = (300usize..1500, 0usize..600).prop_map(|(a, d)| (a, a + d));
     let large = (3000usize..8000, 1usize..600).prop_map(|(a, d)| (a, a + d));
-    let huge = (20000usize..50000, 1usize..500).prop_map(|(a, d)| (a, a + d));
+    let (hlo, hhi) = match size {
+        SizeMode::WithHuge(a, b) => (a, b),
+        _ => (20000, 50000),
+    };
+    let huge = (hlo..hhi, 1usize..500).prop_map(|(a, d)| (a, a + d));
     match size {
         SizeMode::Tiny => tiny.boxed(),
         SizeMode::Mixed => prop_oneof![5 => tiny, 4 => default, 1 => medium].boxed(),
         SizeMode::WithLarge => prop_oneof![30 => tiny, 30 => default, 8 => medium, 1 => large].boxed(),
         SizeMode::Large => large.boxed(),
-        SizeMode::WithHuge => prop_oneof![300 => tiny, 300 => default, 60 => medium, 8 => large, 1 => huge].boxed(),
+        SizeMode::WithHuge(..) => prop_oneof![600 => tiny, 600 => default, 120 => medium, 16 => large, 1 => huge].boxed(),
     }
 }
 
